@@ -29,13 +29,41 @@ class Run:
         self.seed = seed
 
 
+REWRITTEN_BELOW = 0.6      # similarity (difflib ratio over position-free syntax tokens) under which a function counts as rewritten wholesale
+
+
+def demote_rewritten(r):
+    """Verdict discipline, last step: a failed obligation is positive evidence of a defect only while the function it is about still resembles
+    the function the rule was validated on.  For a function that was rewritten wholesale, a failed reading is as likely the analyser's as the
+    code's: such failures become 'cannot decide' (exit 2), never a VIOLATION.  Small edits - what a defect that slips through review looks
+    like - are unaffected."""
+    from .rules import BASELINE_VOCAB
+    from .model import similarity_to_baseline
+    base = BASELINE_VOCAB.get("__function_tokens__")
+    if not base or os.environ.get("PRSA_NO_DEMOTION"):
+        return
+    cache = {}
+    for o in r.rep.obligations:
+        if o.ok or o.detail.get("undecided"):
+            continue
+        q = o.construct.split("#")[0].split("@")[0]
+        if q not in cache:
+            cache[q] = similarity_to_baseline(r.P, q, base)
+        sim = cache[q]
+        if sim is not None and sim < REWRITTEN_BELOW:
+            o.detail["undecided"] = f"{q} was rewritten wholesale relative to the validated tree (similarity {sim:.2f} < {REWRITTEN_BELOW})"
+            r.rep.deferred.append(f"{o.rule} {q}: obligation not discharged, but the function was rewritten wholesale (similarity {sim:.2f}); cannot decide")
+
+
 def run_property(prop, tier, seed, root=None, write_evidence=True, quiet=False, selftest=True):
     r = Run(prop, tier, seed, root)
     try:
         r.mod.run(r)
         if tier == "thorough" and hasattr(r.mod, "run_thorough"):
             r.mod.run_thorough(r)
+        demote_rewritten(r)
     except AnalysisBroken as e:
+        demote_rewritten(r)
         # a genuine violation found before the analyser lost its footing takes precedence
         if not r.rep.failed():
             raise
